@@ -419,7 +419,9 @@ def check_C13(tier, seed):
 
 
 def check_C01(tier, seed):
-    return codec_family("C01", tier, seed, "rt" if tier == "quick" else "chain", exact=False,
+    # 16K..64K-element values (fragmented lengths): the implementation's own encoding decoded back (module VB)
+    res = codec_family("C01", tier, seed, "big", exact=False, modules=(4,), finish_it=False)
+    return codec_family("C01", tier, seed, "rt" if tier == "quick" else "chain", exact=False, res=res,
                         rule="sessions Build, Encode(s), Decode(s), Compare, Encode(DER) for every syntax s (thorough: all ordered pairs of syntaxes as transcoding chains) over every (type, value) of the universe; distinct = distinct (module, type, value)")
 
 
